@@ -662,7 +662,14 @@ pub fn check(tier: &str) -> i32 {
         let (lines, st) = h.join().unwrap();
         let mut ok = false;
         for l in lines {
-            let Ok(v) = serde_json::from_str::<serde_json::Value>(&l) else { continue };
+            let Ok(v) = crate::orch::from_json::<serde_json::Value>(&l) else {
+            // a line that cannot be read must never be dropped silently
+            if l.trim().is_empty() {
+                continue;
+            }
+            println!("HARNESS-ERROR: a worker line could not be read: {}", l.chars().take(120).collect::<String>());
+            return 2;
+        };
             if let Some(f) = v.get("found") {
                 if let Ok(rp) = serde_json::from_value::<KReplay>(f.clone()) {
                     found.push(rp);
